@@ -707,6 +707,12 @@ pub fn session_threads() -> Vec<(String, bool)> {
     w.tracer_thread_name.iter().map(|(t, n)| (n.clone(), w.finished.contains(t))).collect()
 }
 
+/// (tracer id, finished) of every session thread that entered `interpret` in this case
+pub fn session_threads_of() -> Vec<(u32, bool)> {
+    let w = lock();
+    w.tracer_thread_name.keys().map(|t| (*t, w.finished.contains(t))).collect()
+}
+
 pub fn tracer_thread(tracer: u32) -> Option<u64> {
     lock().tracer_thread.get(&tracer).cloned()
 }
